@@ -21,19 +21,42 @@ def _count(name, n=1):
 
 def _violate(name, detail):
     v = _STATE["violations"]
+    entry = {"contract": name, "detail": detail, "pid": os.getpid()}
     if len(v) < 200:
-        v.append({"contract": name, "detail": detail, "pid": os.getpid()})
+        v.append(entry)
     _count(name + "#violations")
+    # forked ParallelMap workers have their own copy of _STATE: also append to a file
+    path = os.environ.get("VERIF_CONTRACT_LOG")
+    if path and os.getpid() != _STATE.get("main_pid"):
+        try:
+            import json
+
+            with open(path, "a") as f:
+                f.write(json.dumps(entry, default=str) + "\n")
+        except Exception:
+            pass
 
 
 def snapshot(counters=None):
-    return {"counters": dict(_STATE["counters"]), "violations": list(_STATE["violations"])}
+    viol = list(_STATE["violations"])
+    path = os.environ.get("VERIF_CONTRACT_LOG")
+    if path and os.path.exists(path):
+        import json
+
+        with open(path) as f:
+            for line in f:
+                try:
+                    viol.append(json.loads(line))
+                except Exception:
+                    pass
+    return {"counters": dict(_STATE["counters"]), "violations": viol[:400]}
 
 
 def install(spec=None):
     if _STATE.get("installed"):
         return _STATE
     _STATE["installed"] = True
+    _STATE["main_pid"] = os.getpid()
     from . import contracts_impl
 
     contracts_impl.install_all(_count, _violate)
